@@ -1,0 +1,75 @@
+//go:build verif
+
+package gmtls
+
+// Verification hooks (build tag "verif" only): the record protection layer
+// (halfConn.encrypt / halfConn.decrypt / incSeq) on a bare halfConn with
+// caller-chosen key material and sequence number, and the padding helpers
+// extractPadding / roundUp / padToBlockSize.  Nothing here is compiled without
+// the tag, and nothing here changes the behaviour of the wrapped functions.
+
+// VerifHalfConn wraps one direction of the record layer.
+type VerifHalfConn struct{ hc halfConn }
+
+// VerifNewHalfConn builds a GMSSL halfConn for suite 0xe013 (SM4-CBC + HMAC-SM3:
+// key 16 bytes, macKey, iv 16 bytes) or 0xe053 (SM4-GCM: key 16 bytes, iv = 4-byte
+// fixed nonce, macKey ignored), activates the cipher spec exactly as the handshake
+// does (prepareCipherSpec + changeCipherSpec) and then sets the sequence number.
+func VerifNewHalfConn(suite uint16, key, macKey, iv []byte, isRead bool, seq []byte) *VerifHalfConn {
+	v := &VerifHalfConn{}
+	var c interface{}
+	var m macFunction
+	switch suite {
+	case GMTLS_ECC_SM4_CBC_SM3:
+		c = cipherSM4(key, iv, isRead)
+		m = macSM3(VersionGMSSL, macKey)
+	case GMTLS_ECC_SM4_GCM_SM3:
+		c = aeadSM4GCM(key, iv)
+	default:
+		panic("VerifNewHalfConn: unsupported suite")
+	}
+	v.hc.prepareCipherSpec(VersionGMSSL, c, m)
+	if err := v.hc.changeCipherSpec(); err != nil {
+		panic("VerifNewHalfConn: changeCipherSpec failed")
+	}
+	copy(v.hc.seq[:], seq)
+	return v
+}
+
+// Encrypt runs halfConn.encrypt on a copy of record (header ‖ explicit IV ‖ data)
+// and returns a copy of the protected record.
+func (v *VerifHalfConn) Encrypt(record []byte, explicitIVLen int) []byte {
+	b := &block{}
+	b.data = append([]byte{}, record...)
+	v.hc.encrypt(b, explicitIVLen)
+	return append([]byte{}, b.data...)
+}
+
+// Decrypt runs halfConn.decrypt on a copy of record.  plaintext is b.data[off:]
+// when ok; header is the (possibly rewritten) 5-byte record header.
+func (v *VerifHalfConn) Decrypt(record []byte) (ok bool, plaintext []byte, header []byte, alertValue uint8) {
+	b := &block{}
+	b.data = append([]byte{}, record...)
+	ok, off, al := v.hc.decrypt(b)
+	if ok {
+		plaintext = append([]byte{}, b.data[off:]...)
+	}
+	if len(b.data) >= recordHeaderLen {
+		header = append([]byte{}, b.data[:recordHeaderLen]...)
+	}
+	return ok, plaintext, header, uint8(al)
+}
+
+// Seq returns a copy of the current sequence number.
+func (v *VerifHalfConn) Seq() []byte { return append([]byte{}, v.hc.seq[:]...) }
+
+// IncSeq runs halfConn.incSeq.
+func (v *VerifHalfConn) IncSeq() { v.hc.incSeq() }
+
+func VerifExtractPadding(payload []byte) (int, byte) { return extractPadding(payload) }
+
+func VerifRoundUp(a, b int) int { return roundUp(a, b) }
+
+func VerifPadToBlockSize(payload []byte, bs int) (prefix, finalBlock []byte) {
+	return padToBlockSize(payload, bs)
+}
